@@ -23,7 +23,11 @@ Record snap := {
    call of this step returned.  The registry runs its notifier inside the critical section of
    Disconnected, so the notification of a transition is complete before any later registry call
    returns: always 0 in the model. *)
-Record ostep := { o_ev : event; o_ret : Z; o_panic : bool; o_seen : bool; o_pending : Z; o_snap : snap }.
+(* [o_out]: -1 for a direct addPeer call; otherwise the enrolment was made by Service.Connect
+   (outbound path, after its real handshake) and o_out is what Connect returned to its caller:
+   1 = the peer, 0 = an error.  addPeer's own answer is then not observable (o_ret is ignored). *)
+Record ostep := { o_ev : event; o_ret : Z; o_panic : bool; o_seen : bool; o_pending : Z; o_out : Z;
+                  o_snap : snap }.
 Record case := { id : N; c_np : N; c_nc : N; c_na : N; c_ns : N; c_evs : list ostep }.
 
 Fixpoint zlist_eqb (a b : list Z) : bool :=
@@ -88,8 +92,18 @@ Fixpoint agree (np na ns : N) (r : reg) (l : list ostep) : bool :=
   match l with
   | [] => true
   | o :: rest =>
-      let r' := step r (o_ev o) in
-      (o_ret o =? ret_of r (o_ev o)) && (o_pending o =? 0) &&
+      let via_connect := 0 <=? o_out o in
+      let r' := match o_ev o with
+                | Enrol c pe closed => if via_connect then fst (connect r c pe closed) else step r (o_ev o)
+                | _ => step r (o_ev o)
+                end in
+      (if via_connect
+       then match o_ev o with
+            | Enrol c pe closed =>
+                o_out o =? (match snd (connect r c pe closed) with Some _ => 1 | None => 0 end)
+            | _ => false
+            end
+       else o_ret o =? ret_of r (o_ev o)) && (o_pending o =? 0) &&
       Bool.eqb (o_panic o) (negb (panicked r) && panicked r') &&
       (negb (o_seen o) || snap_eqb (o_snap o) (snap_of np na ns r')) &&
       agree np na ns (if o_panic o then
@@ -161,14 +175,21 @@ Definition proven (hist : list event) (p : pid) (a r : Z) : bool :=
 
 (* handler starts reported by this event: the peer must have been registered in the state the
    stream was tracked in ([tracked_in]: stream -> was its peer registered then), and the identity
-   handed over must have been proven in a handshake of that peer *)
-Fixpoint check_starts (hist : list event) (tracked_in : list (sid * bool)) (fresh : list Z) : option string :=
+   handed over must be the record the peer was registered with when the wrapper looked it up
+   ([looked_in]: stream -> that record; when that state was not observed: proven in some earlier
+   handshake of that peer) *)
+Fixpoint check_starts (hist : list event) (tracked_in : list (sid * bool)) (looked_in : list (sid * list Z))
+  (fresh : list Z) : option string :=
   match fresh with
   | [] => None
   | s :: p :: a :: r :: rest =>
       match get (Z.to_N s) tracked_in with
       | Some true =>
-          if proven hist (Z.to_N p) a r then check_starts hist tracked_in rest
+          if match get (Z.to_N s) looked_in with
+             | Some rec => zlist_eqb rec [a; r]
+             | None => proven hist (Z.to_N p) a r
+             end
+          then check_starts hist tracked_in looked_in rest
           else Some "handler-identity"%string
       | _ => Some "handler-unregistered"%string
       end
@@ -188,7 +209,8 @@ Definition first_some (a b : option string) : option string :=
   match a with Some _ => a | None => b end.
 Definition guard (b : bool) (k : string) : option string := if b then None else Some k.
 
-Fixpoint check_from (np nc na ns : N) (hist : list event) (tracked_in : list (sid * bool)) (blind : bool) (prev : snap)
+Fixpoint check_from (np nc na ns : N) (hist : list event) (tracked_in : list (sid * bool))
+  (looked_in : list (sid * list Z)) (blind : bool) (prev : snap)
   (l : list ostep) : option string :=
   match l with
   | [] => None
@@ -204,6 +226,12 @@ Fixpoint check_from (np nc na ns : N) (hist : list event) (tracked_in : list (si
                         | None, Some p => if cell (sn_sw prev) s =? 1 then put s (reg_in prev p) tracked_in else tracked_in
                         | _, _ => tracked_in end
           | _ => tracked_in
+          end in
+        let looked_in' :=
+          match e with
+          | SLookup s p => if negb blind && o_seen o && (cell (sn_sw prev) s =? 0) && negb (is_nil (row (sn_over prev) p))
+                           then put s (row (sn_over prev) p) looked_in else looked_in
+          | _ => looked_in
           end in
         let here :=
           (* notifications are delivered in the order of the registry transitions: none may still
@@ -223,10 +251,18 @@ Fixpoint check_from (np nc na ns : N) (hist : list event) (tracked_in : list (si
           (first_some (check_registered np nc hist' sn)
           (first_some (guard (check_notes np prev sn) "notifications")
           (first_some (match drop_prefix (sn_started prev) (sn_started sn) with
-                       | Some fresh => check_starts hist' tracked_in' fresh
+                       | Some fresh => check_starts hist' tracked_in' looked_in' fresh
                        | None => Some "handler-identity"%string end)
           (first_some (match e with
-                       | Enrol c pe _ =>
+                       | Enrol c _ _ =>
+                           (* Connect told its caller that the peer is connected: it must be
+                              registered; and it withholds no registered peer *)
+                           if o_out o =? 1 then guard (reg_in sn (remote c)) "announced-unregistered:outbound"
+                           else if o_out o =? 0 then guard (negb (reg_in sn (remote c))) "withheld-registered:outbound"
+                           else None
+                       | _ => None end)
+          (first_some (match e with
+                       | Enrol c pe _ => if 0 <=? o_out o then None else
                            (* addPeer answered "not yet there" (the inbound path then announces
                               Connected): this call must have registered the peer with this record;
                               otherwise the peer's registration is untouched *)
@@ -244,15 +280,15 @@ Fixpoint check_from (np nc na ns : N) (hist : list event) (tracked_in : list (si
                            if (cell (sn_sw prev) s =? 0) && negb (reg_in prev p)
                            then guard (cell (sn_sw sn) s =? 4) "handler-unregistered" else None
                        | _ => None end)
-                      (guard (check_ctx ns hist' sn) "ctx-not-cancelled")))))))) in
-        first_some here (if o_seen o then check_from np nc na ns hist' tracked_in' false sn rest
-                         else check_from np nc na ns hist' tracked_in' true prev rest)
+                      (guard (check_ctx ns hist' sn) "ctx-not-cancelled"))))))))) in
+        first_some here (if o_seen o then check_from np nc na ns hist' tracked_in' looked_in' false sn rest
+                         else check_from np nc na ns hist' tracked_in' looked_in' true prev rest)
   end.
 
 Definition empty_snap (np na ns : N) : snap := snap_of np na ns init.
 
 Definition violation (c : case) : option string :=
-  check_from (c_np c) (c_nc c) (c_na c) (c_ns c) [] [] false (empty_snap (c_np c) (c_na c) (c_ns c)) (c_evs c).
+  check_from (c_np c) (c_nc c) (c_na c) (c_ns c) [] [] [] false (empty_snap (c_np c) (c_na c) (c_ns c)) (c_evs c).
 Definition violations (cs : list case) : list (N * string) :=
   flat_map (fun c => match violation c with Some k => [(id c, k)] | None => [] end) cs.
 
